@@ -267,11 +267,14 @@ class Interp:
         cell = fr.locals[place["l"]]
         path = ()
         off = 0
+        ln = None          # length of the current slice window, when a sub-slice reference was dereferenced
+        self.last_window_len = None
         for pe in place["p"]:
             if pe == "deref":
                 v = self.read(cell, path)
                 if isinstance(v, Ref):
                     cell, path, off = v.cell, v.path, v.off
+                    ln = v.len
                 elif isinstance(v, Opaque):
                     inner = self.tinfo(v.ty).get("t") or "?"
                     cell, path, off = Cell(Opaque(inner, v.tags | {"deref"}, v.info), "opaque*"), (), 0
@@ -299,9 +302,28 @@ class Interp:
                 off = 0
             elif isinstance(pe, dict) and "cidx" in pe:
                 if pe["from_end"]:
-                    raise Unsupported("from_end constant index")
-                path = path + (("e", pe["cidx"] + off),)
+                    cont = self.read(cell, path)
+                    if not isinstance(cont, (Arr, VecV)):
+                        raise Unsupported("from_end constant index into %r" % (cont,))
+                    n = ln if ln is not None else len(cont.elems) - off
+                    path = path + (("e", off + n - pe["cidx"]),)
+                else:
+                    path = path + (("e", pe["cidx"] + off),)
                 off = 0
+                ln = None
+            elif isinstance(pe, dict) and "sub_from" in pe:
+                # slice pattern `[a, b, rest @ ..]` / `[rest @ .., z]`: a window of the current slice
+                cont = self.read(cell, path)
+                if not isinstance(cont, (Arr, VecV)):
+                    raise Unsupported("sub-slice of %r" % (cont,))
+                n = ln if ln is not None else len(cont.elems) - off
+                a_, b_ = pe["sub_from"], pe["sub_to"]
+                new_len = (n - a_ - b_) if pe.get("from_end") else (b_ - a_)
+                if new_len < 0 or a_ > n:
+                    raise Diverge("sub-slice pattern on a slice of length %d" % n)
+                off = off + a_
+                ln = new_len
+                self.last_window_len = ln
             elif isinstance(pe, dict) and "downcast" in pe:
                 path = path + (("d", pe["downcast"]),)
             else:
@@ -553,6 +575,8 @@ class Interp:
                 sv = self.read(src_cell, src_path)
                 if isinstance(sv, Ref):
                     return Ref(sv.cell, sv.path, sv.off, sv.len, sv.tags)
+            if rv["p"]["p"] and isinstance(rv["p"]["p"][-1], dict) and "sub_from" in rv["p"]["p"][-1] and self.last_window_len is not None:
+                return Ref(cell, path, off, self.last_window_len)
             return Ref(cell, path, off)
         if k == "bin":
             a = self.operand(fr, rv["a"])
